@@ -1,4 +1,4 @@
 SPECIFICATION TraceSpec
-INVARIANTS HarnessPayFees C38_PhaseSchedule C38_ListsFollow C38_MagicBlock C38_MpkAccept C38_KeepAccept C38_ShareAccept C38_WaitAccept
+INVARIANTS HarnessPayFees C38_PhaseSchedule C38_ListsFollow C38_MagicBlock C38_MpkAccept C38_KeepAccept C38_ShareAccept C38_WaitAccept C38_ParticipantsHaveKeys
 POSTCONDITION Accepted
 CHECK_DEADLOCK FALSE
